@@ -719,6 +719,40 @@ def _check_translation(ctx, typer, tr, patparam, result_expr):
         raise AnalysisError("%s has no return" % tr.qual)
     for r in rets:
         rv = resolve_local(tr, r.value) if isinstance(r.value, ast.Name) and result_expr is not None else r.value
+        # "".join(<list of pieces>): the literal pieces the list starts with are the prefix, literal pieces appended after the
+        # character loop the suffix, what the loop appends is the body
+        if isinstance(rv, ast.Call) and isinstance(rv.func, ast.Attribute) and rv.func.attr == "join" and isinstance(rv.func.value, ast.Constant) \
+                and rv.func.value.value == "" and len(rv.args) == 1 and isinstance(rv.args[0], ast.Name) and rv.args[0].id in appends:
+            acc = rv.args[0].id
+            inits = assigns.get(acc, [])
+            loops_ = [x for x in walk_own(tr.node) if isinstance(x, (ast.For, ast.While))]
+            in_loop = lambda st_: any(st_ is y for lp in loops_ for y in ast.walk(lp))  # noqa: E731
+            if len(inits) == 1 and isinstance(inits[0].value, (ast.List, ast.Tuple)) and not in_loop(inits[0]) \
+                    and all(isinstance(e_, ast.Constant) and isinstance(e_.value, str) for e_ in inits[0].value.elts) and not augs.get(acc):
+                pre = "".join(e_.value for e_ in inits[0].value.elts)
+                post = ""
+                okshape = True
+                for st_ in appends[acc]:
+                    call_ = st_.value
+                    if in_loop(st_):
+                        for a_ in call_.args:
+                            if call_.func.attr == "append":
+                                frag(a_, which_from_guards(st_), st_)
+                            else:
+                                frag(a_, None, st_)
+                    elif call_.func.attr == "append" and len(call_.args) == 1 and isinstance(call_.args[0], ast.Constant) \
+                            and isinstance(call_.args[0].value, str) and st_.lineno > max([lp.lineno for lp in loops_] or [0]):
+                        post += call_.args[0].value
+                    else:
+                        okshape = False
+                if okshape:
+                    state["n"] += 1
+                    ok = _anchored(pre, post)
+                    if ok is True:
+                        ctx.inst("G1", tr, r, "pieces wrapped by flags-only prefix %r and end-of-string anchor %r" % (pre, post))
+                    else:
+                        ctx.viol("G1", tr, r, "translated pattern is not anchored to the whole name: %s" % ok)
+                    continue
         parts = _split_concat(rv)
         pre, post, seen_body = "", "", False
         for part in parts:
